@@ -32,6 +32,12 @@ void UncompressedFile::read(char * s, std::streamsize n) {
     /* mutex lock */
     std::unique_lock<std::mutex> lock(m_mutex);
 
+    /* reading nothing neither needs data nor changes the state (in particular it doesn't clear a failure) */
+    if (n == 0) {
+        m_gcount = 0;
+        return;
+    }
+
     /* tell writers how much data is needed, so they don't wait for free space */
     m_tellgRequested = m_tellg + n;
     tellgChanged.notify_all();
